@@ -28,6 +28,10 @@ def gen(rng, quick):
         # an unreachable goal: every planner has to report an approximate solution (assembled from its record of the closest state)
         for k in range(2 if quick else 12):
             jobs.append("CRUN %s %s blocked %d %g %d %d %g %d %d %g" % (p, ["car", "point"][k % 2], k % 4, [0.05, 0.02][k % 2], 1, [8, 30][k % 2], 0.05, 7919 * (k + 1) + len(p), 200000, 1.0 if quick else 2.0))
+        # a goal whose distance does not decide satisfaction (dock: position within the threshold AND heading within 0.35 rad; the distance is
+        # planar only): a state close in distance but not satisfying must never be reported as an exact solution (generator-independent runs)
+        for k in range(3 if quick else 16):
+            jobs.append("CRUN %s car %s %d %g %d %d %g %d %d %g" % (p, ["empty", "boxes3", "gap"][k % 3], 4 + k % 4, [0.05, 0.03][k % 2], 1, [10, 30][k % 2], [0.2, 0.12][k % 2], 4001 * (k + 1) + 3 * len(p), 200000, 1.0 if quick else 2.0))
         # the same with a directed control sampler that tries k controls per extension and keeps the one ending closest
         for k in range(2 if quick else 24):
             sysn = ["point", "car"][k % 2] + ":k%d" % rng.choice([2, 4, 8])
